@@ -1485,3 +1485,17 @@ TABLE["C16"] += [
        "                content = f.read()\n            parsed_file = parser.Module.parseString(content)\n            if parsed_result is None:\n                parsed_result = parsed_file\n            else:\n                parsed_result.content.extend(parsed_file.content)\n"),
       (MW, "        content = \"\"\n        modules = {}\n", "        parsed_result = None\n        modules = {}\n")),
 ]
+
+# pair element by position (C11 H13 / C06 M12); ids without a role outside the virtual pair (C11 H14)
+_PAIR_COPY = "                    .format(name=self._format_type_name(return_type.typename),\n                            shared_obj='pairResult.' + pair_value)"
+for _p, _r in (("C11", "H13"), ("C06", "M12")):
+    TABLE[_p] += [
+        B("pair-value-copied-from-first", {_r}, (MW, _PAIR_COPY, "                    .format(name=self._format_type_name(return_type.typename),\n                            shared_obj='pairResult.first')")),
+        B("pair-plain-value-from-second", {_r}, (MW, "            return_type_text += 'wrap< {0} >(pairResult.{1});{2}'.format(\n                self._format_type_name(return_type.typename, separator='.'),\n                pair_value, new_line)",
+                                                 "            return_type_text += 'wrap< {0} >(pairResult.second);{2}'.format(\n                self._format_type_name(return_type.typename, separator='.'),\n                pair_value, new_line)")),
+        N("pair-element-through-a-local", (MW, "            shared_obj = 'pairResult.' + pair_value\n\n", "            element = 'pairResult.' + pair_value\n            shared_obj = element\n\n")),
+    ]
+TABLE["C11"] += [
+    B("ignored-method-reserves-an-id", {"H14"},
+      (MW, "            if method_name in self.ignore_methods:\n                continue\n", "            if method_name in self.ignore_methods:\n                for _ in method:\n                    self._update_wrapper_id()\n                continue\n")),
+]
